@@ -62,7 +62,13 @@ func runC09ClosePanic(c *eng.Ctx, next func() (int, bool)) {
 				case "child-of-closed-parent":
 					others = append(others, core.Op{Kind: core.OpClose, Scope: parent})
 				case "top-level-vs-provider":
-					others = append(others, core.Op{Kind: core.OpCancel, Scope: parent})
+					// the cancel wakes godi's watcher goroutine, which closes the scope: only after
+					// closer 1 has taken the Close (and panicked) - a user Close that panics on the
+					// watcher goroutine has nobody to recover it and would end the process, which
+					// is the user code's doing, not the container's
+					if !concurrent {
+						others = append(others, core.Op{Kind: core.OpCancel, Scope: parent})
+					}
 				}
 				others = append(others, core.Op{Kind: core.OpCloseProvider})
 				var wg sync.WaitGroup
